@@ -27,6 +27,23 @@ def intercalate (sep : Char) : List (List Char) → List Char
   | [x] => x
   | x :: xs => x ++ sep :: intercalate sep xs
 
+/-- the decimal numeral `m × 10^e` read by Python's `float()` is finite: it rounds to a double, i.e. it is below
+    2^1024 - 2^970, the midpoint between the largest double and 2^1024 (the tie rounds to even, which is infinity).
+    `s` matches the float grammar: `[-+]?[0-9]*\.?[0-9]+([eE][-+]?[0-9]+)?` -/
+def floatFinite (s : List Char) : Bool :=
+  let s := match s with | '-' :: r => r | '+' :: r => r | _ => s
+  let mant := s.takeWhile (fun c => c != 'e' && c != 'E')
+  let expo := (s.dropWhile (fun c => c != 'e' && c != 'E')).drop 1
+  let ip := mant.takeWhile (· != '.')
+  let fp := (mant.dropWhile (· != '.')).drop 1
+  let m := natOf (ip ++ fp)
+  let e : Int := (if expo.isEmpty then 0 else (intOf? expo).getD 0) - (fp.length : Int)
+  let ndig := (ip ++ fp).length
+  let limit : Nat := 2 ^ 1024 - 2 ^ 970
+  if m = 0 then true
+  else if e ≥ 0 then (if e > 310 then false else decide (m * 10 ^ e.toNat < limit))
+  else (if (-e).toNat > ndig then true else decide (m < limit * 10 ^ (-e).toNat))
+
 /-- NumericArray.SUBTYPE_RANGE: inclusive lower bound, exclusive upper bound -/
 def subtypeRange : Char → Option (Int × Int)
   | 'C' => some (0, 256) | 'S' => some (0, 65536) | 'I' => some (0, 4294967296)
@@ -37,7 +54,7 @@ def subtypeRange : Char → Option (Int × Int)
 def numArrayInRange (s : List Char) : Bool :=
   match splitOn ',' s with
   | [st] :: elems =>
-    if st == 'f' then true else
+    if st == 'f' then elems.all floatFinite else
     match subtypeRange st with
     | none => false
     | some (lo, hi) => elems.all (fun e => match intOf? e with | some v => lo ≤ v && v < hi | none => false)
@@ -53,6 +70,7 @@ def sideOk (dt : Datatype) (s : List Char) : Bool :=
   | .segNameGfa1 => !hasOrientComma s
   | .oidListGfa1 => (splitOn ',' s).all (fun e => Grammar.oid1.accepts e)
   | .customRecordType => !reservedRecordTypes.contains s
+  | .f => floatFinite s           -- a numeral beyond the double range is read as infinity, which no f field holds
   | .idGfa2 => s != ['*']          -- the placeholder is not an identifier where one is required
   | _ => true
 
